@@ -333,3 +333,47 @@ class LoopSpec:
             if interp.truth(interp.eval(node.test, env, module)):
                 raise PathKilled()
             interp.exec_block(node.orelse, env, module)
+
+
+class LazyComp:
+    """[elt for target in seq] over a symbolic sequence: element k is evaluated on demand"""
+
+    _symbolic_iter = True
+
+    def __init__(self, interp, elt, target, seq, env, module):
+        self.interp, self.elt, self.target, self.seq, self.env, self.module = interp, elt, target, seq, env, module
+
+    def _len(self):
+        return self.seq._len()
+
+    def _at(self, k):
+        from .pyvc import Env
+        e2 = Env(self.env)
+        self.interp.assign(self.target, self.seq._at(k), e2, self.module)
+        return self.interp.eval(self.elt, e2, self.module)
+
+    def _sorted(self, key, reverse):
+        return SortedLazy(self, key, reverse)
+
+
+class SortedLazy:
+    """sorted(lazy sequence, key, reverse): a permutation of it; element 0 is extremal w.r.t. the key (A-CPY: sorted is a total order)"""
+
+    def __init__(self, base, key, reverse):
+        self.base, self.key, self.reverse = base, key, reverse
+
+    def _len(self):
+        return self.base._len()
+
+    def _getitem(self, idx):
+        if not (isinstance(idx, int) and idx == 0):
+            raise Unsupported("only the first element of a sorted symbolic sequence is modelled")
+        st = cur()
+        memo = st.ghost.setdefault("sorted_first", {})
+        if id(self) not in memo:
+            n = self.base._len()
+            p = st.fresh_int("argbest")
+            st.safety("sorted-empty-index", z3num(n) > 0)
+            st.assume(z3.And(p >= 0, p < z3num(n)))
+            memo[id(self)] = (self, self.base._at(SR(p)))
+        return memo[id(self)][1]
